@@ -250,7 +250,7 @@ func (r rawSpec) build() ([]byte, error) {
 // MutantKinds lists the defects the corpus can apply.
 var MutantKinds = []string{
 	"lc+1", "lc-1", "unknown-prev", "wrong-payload", "sig-other-key", "sig-tampered", "kid-and-jwk", "no-kid-no-jwk",
-	"alg-hmac", "alg-none", "no-sigt", "no-ver", "no-prevs", "no-lc", "ver-2", "second-root", "two-signatures", "header-tampered",
+	"alg-hmac", "alg-none", "no-sigt", "no-ver", "no-prevs", "no-lc", "ver-3", "second-root", "two-signatures", "header-tampered",
 	"payload-hash-tampered", "kid-unknown",
 }
 
@@ -346,8 +346,8 @@ func (c *Corpus) Mutant(kind string, base *CTx, prevs []*CTx) *CTx {
 	case "no-lc":
 		delete(spec.headers, "lc")
 		spec.headers[jws.CriticalKey] = []string{"sigt", "ver", "prevs"}
-	case "ver-2":
-		spec.headers["ver"] = 2
+	case "ver-3":
+		spec.headers["ver"] = 3
 	case "second-root":
 		spec.headers["prevs"] = []string{}
 		spec.headers["lc"] = 0
@@ -387,6 +387,28 @@ func (c *Corpus) Mutant(kind string, base *CTx, prevs []*CTx) *CTx {
 		if !bytes.Equal(tx.Data(), raw) {
 			m.Raw = tx.Data()
 		}
+	}
+	return m
+}
+
+// MutantKid builds a transaction that names an existing key id (kid header, no embedded key)
+// but is signed with a key the DID document does not list.
+func (c *Corpus) MutantKid(kid string, prevs []*CTx) *CTx {
+	key := NewKey()
+	payload := []byte(fmt.Sprintf("%s-mutant-%d-kid", c.Tag, c.n))
+	c.n++
+	lc := maxLC(prevs)
+	spec := baseSpec(refs(prevs), lc, hash.SHA256Sum(payload), "foo/bar", key, c.Now())
+	delete(spec.headers, jws.JWKKey)
+	spec.headers[jws.KeyIDKey] = kid
+	raw, err := spec.build()
+	if err != nil {
+		return nil
+	}
+	m := &CTx{Payload: payload, Prevs: refs(prevs), LC: lc, Defect: "kid-wrong-key", Idx: c.n, Raw: raw, Ref: hash.SHA256Sum(raw)}
+	if tx, err := dag.ParseTransaction(raw); err == nil {
+		m.Tx = tx
+		m.Ref = tx.Ref()
 	}
 	return m
 }
